@@ -175,6 +175,18 @@ def cases(tier):
         for starts in ((0, 0.5), (0, 1.5), (0.25, 0), (0, 2.75)):
             cs.append(F.ring(2, {1: mats[k1]}, menu=(1, 2), end=6, starts=starts))
             cs.append(F.ring(2, {0: mats[k1]}, menu=(1, 2), end=6, starts=starts, order=("B", "A")))
+    # rings through a pull-based component that reaches its consumer over two parallel links with different delays (the ring is only
+    # broken when BOTH parallel links carry a delay), slot declaration order = link order, both ways round
+    par = [[], [["F", 1]], [["F", 3]], [["F", 4]], [["S", 2], ["F", 3]]]
+    for ch0, ch1 in itertools.product(par, repeat=2):
+        if ch0 and ch1 and ch0 != ch1:
+            continue  # both links delayed differently: the pull-based component is asked twice for different times within one update - the open C01/C20 finding, not a C04 matter
+        for two in (False, True):
+            for pi in (True, False):
+                cs.append(F.ringPdup(ch0, ch1, two_outputs=two, pull_initial=pi))
+                cs.append(F.ringPdup(ch0, ch1, two_outputs=two, pull_initial=pi, order=("P", "A")))
+            cs.append(F.ringPdup(ch0, ch1, two_outputs=two, with_b=True))
+            cs.append(F.ringPdup(ch0, ch1, two_outputs=two, with_b=True, order=("B", "P", "A")))
     # 3-rings, choice mode
     mats3 = materials(6, q)
     for k, m in mats3.items():
